@@ -178,11 +178,30 @@ def check_case(case):
             if (out.start_time is None) != (z.start_time is None):
                 res.violation("fast_len|start none-ness", f"start_time None-ness changed L={L}", case, sub)
             elif z.start_time is not None:
+                # "timestamps untouched": the very same two doubles
                 d = abs(exact.time_days(out.start_time) - exact.time_days(z.start_time))
-                if not res.ratio("start_time drift / 2ulp_T", d, 2 * exact.ULP_T):
+                if d != 0 or out.start_time.scale != z.start_time.scale:
                     res.violation("fast_len|start_time", f"start_time moved by {float(d)*86400:.3e} s for L={L}", case, sub)
             if out.sample_rate != z.sample_rate:
                 res.violation("fast_len|sample_rate", f"sample_rate changed L={L}", case, sub)
+            if L == 11 and z.start_time is not None and cls == "Signal":
+                # generic epochs (two doubles with all their bits) on several scales: a UTC epoch plus zero seconds is not always
+                # the same two doubles back, so the start time must simply be kept
+                from astropy.time import Time as _T
+                fam = [(2456426.0, 0.49982579782510306, "utc"), (2459393.0, -0.2505799961106504, "utc")]
+                fam += [(2451545.0 + 37 * i, ((i * 0.6180339887498949) % 1.0) - 0.5, ("utc", "tai", "tt")[i % 3]) for i in range(600)]
+                bad = 0
+                for jd1, jd2, sc in fam:
+                    t0 = _T(jd1, jd2, format="jd", scale=sc)
+                    zz = type(z).like(z, start_time=t0)
+                    o2 = pb.fast_len(zz)
+                    res.transitions += 1
+                    if (o2.start_time.jd1, o2.start_time.jd2) != (zz.start_time.jd1, zz.start_time.jd2) and not bad:
+                        bad += 1
+                        res.violation("fast_len|start_time", f"start_time (jd1, jd2) = ({jd1!r}, {jd2!r}) {sc} came back as "
+                                      f"({o2.start_time.jd1!r}, {o2.start_time.jd2!r}) after cropping 11 -> 10 samples", case,
+                                      {"jd1": jd1, "jd2": jd2, "scale": sc})
+                res.hits["generic epochs kept bit for bit"] += 1
             if want < L:
                 res.hits["fast_len cropped"] += 1
             else:
@@ -229,7 +248,7 @@ def main(argv=None):
     return report.run_check(
         PID, gen_cases=gen_cases, check_case=check_case, describe=describe,
         required_hits=["N itself smooth", "N not smooth", "N above 2^40", "fast_len cropped", "fast_len kept all",
-                       "fast_len on Dask data", "numpy integer whose double does not fit its width", "N passed by keyword", "fast_len on masked data"],
+                       "fast_len on Dask data", "numpy integer whose double does not fit its width", "N passed by keyword", "fast_len on masked data", "generic epochs kept bit for bit"],
         assumptions=["N is a Python int, or a NumPy integer scalar of any width that holds it (around the prime powers and 1/97 of the smooth numbers)",
                      "7-smooth reference list generated by nested multiplication, self-checked against trial division"],
         argv=argv)
